@@ -737,7 +737,8 @@ def ddl_profile(pid, tier):
     return {"design": [("2 sessions x 3: DROP CONSTRAINT / insert / update / catalog query", ddl_consts(Kinds=small), 3)] +
                       ([("2 sessions x 3: constraint, unique index, column", ddl_consts(Kinds=small | {"crUIdx", "dropUIdx", "addCol", "insx"}), 8),
                         ("2 sessions x 4: DROP CONSTRAINT", ddl_consts(MaxStmts=4, Kinds=small), 8),
-                        ("3 sessions x 3: DROP CONSTRAINT, table k2", ddl_consts(NS=3, Kinds=small | {"crT2", "dropT2", "ins2"}), 8)] if thorough else []),
+                        ("3 sessions x 3: begin/commit/rollback, insert, DROP CONSTRAINT", ddl_consts(NS=3, MaxId=1, Kinds={"begin", "commit", "rollback", "ins", "dropChk"}), 8),
+                        ("2 sessions x 3: table k2", ddl_consts(Kinds={"begin", "commit", "rollback", "ins2", "crT2", "dropT2", "showcat"}), 8)] if thorough else []),
             "sim": [(ddl_consts(NS=3, MaxId=3, UVals={"a", "b"}, MaxStmts=5), 800 if thorough else 80)],
             "kinds": allk, "broken": ddl_consts(NS=2, MaxStmts=4, Kinds={"begin", "rollback", "ins", "dropChk", "sel"}) if thorough else None}
 
